@@ -157,6 +157,98 @@ func runGCCase(rep *vevid.Report, f *vevid.Flags, c gcCase, no int) {
 	rep.Outcome(fmt.Sprintf("gcscan %s n=%d min=%d", c.Profile, c.N, minAck))
 }
 
+// runResetCase: an explicit index reset (FanOutQueue.SetAppendedSeq, what a follower does when the leader tells it where
+// to continue) in the middle of a log: n appends, reset to s (backwards into an earlier index / data page, to the
+// current position, or forwards), m more appends. Every message appended after the reset reads back under its own
+// sequence s+1.. with its own bytes, before and after close / reopen; with a group, its positions follow the reset.
+func runResetCase(rep *vevid.Report, f *vevid.Flags, profile string, n int, s int64, m int, withGroup bool, no int) {
+	scen := fmt.Sprintf("reset/%s", profile)
+	cfg := fmt.Sprintf("profile=%s appends=%d reset-to=%d then-appends=%d group=%v", profile, n, s, m, withGroup)
+	viol := func(clause, site, detail string) {
+		rep.Violate(vevid.Violation{Clause: clause, Scenario: scen, Site: site, Detail: cfg + ": " + detail, Replay: replay{Part: "gcscan", Config: cfg}})
+	}
+	dir := filepath.Join(f.Scratch, fmt.Sprintf("rs%d", no))
+	_ = os.RemoveAll(dir)
+	defer os.RemoveAll(dir)
+	defer func() {
+		if r := recover(); r != nil {
+			viol("panic", "pkg/queue", fmt.Sprint(r))
+		}
+	}()
+	fq, err := queue.NewFanOutQueue(dir, 0)
+	if err != nil {
+		vevid.OpFailed("new fan-out queue: %v", err)
+	}
+	closed := false
+	defer func() {
+		if !closed {
+			fq.Close()
+		}
+	}()
+	var g queue.ConsumerGroup
+	if withGroup {
+		if g, err = fq.GetOrCreateConsumerGroup("a"); err != nil {
+			vevid.OpFailed("group: %v", err)
+		}
+	}
+	for i := 0; i < n; i++ {
+		if err := fq.Queue().Put(gcPayload(profile, i)); err != nil {
+			viol("put-failed", "queue.Put", fmt.Sprintf("append %d: %v", i, err))
+			return
+		}
+	}
+	fq.SetAppendedSeq(s)
+	if app := fq.Queue().AppendedSeq(); app != s {
+		viol("reset-position", "FanOutQueue.SetAppendedSeq", fmt.Sprintf("appended %d after the reset", app))
+	}
+	after := func(i int) []byte { return gcPayload(profile, 100+i) }
+	for i := 0; i < m; i++ {
+		if err := fq.Queue().Put(after(i)); err != nil {
+			viol("put-failed", "queue.Put", fmt.Sprintf("append %d after the reset: %v", i, err))
+			return
+		}
+		if app := fq.Queue().AppendedSeq(); app != s+1+int64(i) {
+			viol("dense-sequences", "queue.Put", fmt.Sprintf("append %d after the reset got sequence %d, expected %d", i, app, s+1+int64(i)))
+			return
+		}
+	}
+	check := func(q queue.FanOutQueue, when string) {
+		if app := q.Queue().AppendedSeq(); app != s+int64(m) {
+			viol("positions", "queue", fmt.Sprintf("%s: appended %d, expected %d", when, app, s+int64(m)))
+		}
+		for i := 0; i < m; i++ {
+			seq := s + 1 + int64(i)
+			b, err := q.Queue().Get(seq)
+			if err != nil {
+				viol("appended-readable", "queue.Get after reset", fmt.Sprintf("%s: message %d (append %d after the reset) is not readable: %v", when, seq, i, err))
+				continue
+			}
+			if !bytes.Equal(b, after(i)) {
+				viol("appended-readable", "queue.Get after reset", fmt.Sprintf("%s: message %d (append %d after the reset) reads %d bytes %q..., appended %d bytes %q...", when, seq, i, len(b), head(b), len(after(i)), head(after(i))))
+			}
+		}
+	}
+	check(fq, "after the appends")
+	if withGroup {
+		for i := 0; i < m; i++ {
+			if got := g.Consume(); got != s+1+int64(i) {
+				viol("consume-consecutive", "ConsumerGroup.Consume", fmt.Sprintf("after the reset consume returned %d, expected %d", got, s+1+int64(i)))
+				break
+			}
+		}
+	}
+	fq.Close()
+	closed = true
+	fq2, err := queue.NewFanOutQueue(dir, 0)
+	if err != nil {
+		viol("reopen-failed", "queue.NewFanOutQueue", err.Error())
+		return
+	}
+	defer fq2.Close()
+	check(fq2, "after reopen")
+	rep.Outcome(fmt.Sprintf("reset %s n=%d to=%d m=%d", profile, n, s, m))
+}
+
 func head(b []byte) []byte {
 	if len(b) > 4 {
 		return b[:4]
@@ -169,7 +261,7 @@ func runGCScan(f *vevid.Flags, rep *vevid.Report) {
 	if f.Thorough() {
 		maxN = 14
 	}
-	rep.Rule = fmt.Sprintf("scripted exhaustive product: message size profile {half,big,tiny,mixed,exact} x appends 5..%d x acknowledged position of group a (every position -1..n-1) x second group {none, every position <= a's} x {sync+gc once, twice}; one or two groups consume everything, acknowledge, FanOutQueue.Sync + Queue.GC run, every message above the queue ack is read back byte for byte, then close / reopen / read back again; 4 index entries per index page, 64-byte data pages; plus long logs whose data or index page ids cross 9->10 and 99->100 (profile,appends: big 11,12,13,102; tiny 41,45,49,406; half 23), one group, acknowledged positions: all (short) / around the boundary (long). distinct = cases", maxN)
+	rep.Rule = fmt.Sprintf("scripted exhaustive product: message size profile {half,big,tiny,mixed,exact} x appends 5..%d x acknowledged position of group a (every position -1..n-1) x second group {none, every position <= a's} x {sync+gc once, twice}; one or two groups consume everything, acknowledge, FanOutQueue.Sync + Queue.GC run, every message above the queue ack is read back byte for byte, then close / reopen / read back again; 4 index entries per index page, 64-byte data pages; plus long logs whose data or index page ids cross 9->10 and 99->100 (profile,appends: big 11,12,13,102; tiny 41,45,49,406; half 23), one group, acknowledged positions: all (short) / around the boundary (long); plus explicit index resets (FanOutQueue.SetAppendedSeq): profile x appends {1,5,6,9,10} x reset target -1..n+5 (backwards over index / data pages, in place, forwards) x 1/2/5 more appends x with/without a group: every message appended after the reset reads back under its own sequence, also after reopen. distinct = cases", maxN)
 	rep.Bounds["max_appends"] = maxN
 	var idx int64
 	no := 0
@@ -194,6 +286,29 @@ func runGCScan(f *vevid.Flags, rep *vevid.Report) {
 						rep.Evaluations++
 						rep.DistinctNontrivial++
 						runGCCase(rep, f, gcCase{Part: "gcscan", Profile: profile, N: n, AckA: a, AckB: b, Twice: twice}, no)
+					}
+				}
+			}
+		}
+	}
+	// explicit index resets
+	for _, profile := range []string{"half", "big", "tiny", "mixed"} {
+		for _, n := range []int{1, 5, 6, 9, 10} {
+			for s := int64(-1); s <= int64(n)+5; s++ {
+				for _, m := range []int{1, 2, 5} {
+					for _, wg := range []bool{false, true} {
+						idx++
+						if !f.Mine(idx) {
+							continue
+						}
+						if f.Expired() {
+							rep.Cap("deadline")
+							return
+						}
+						no++
+						rep.Evaluations++
+						rep.DistinctNontrivial++
+						runResetCase(rep, f, profile, n, s, m, wg, no)
 					}
 				}
 			}
